@@ -13,7 +13,7 @@ ALLOW = 'bufio,io,encoding/binary,errors,bytes,time'
 INITS = 'io,bufio,errors,time,github.com/bluenviron/gomavlib/v3/pkg/message,github.com/bluenviron/gomavlib/v3/pkg/frame'
 OPTIONS = {'now_stub': True}
 NATIVE = False
-ANCHOR_FILES = ['/repo/channel_provider.go', '/repo/endpoint_client.go', '/repo/endpoint_serial.go', '/repo/endpoint_server.go',
+ANCHOR_FILES = ['/repo/channel_provider.go', '/repo/endpoint_client.go', '/repo/endpoint_serial.go', '/repo/endpoint_server.go', '/repo/endpoint_broadcast.go',
                 '/repo/pkg/timednetconn/conn.go', '/repo/channel.go']
 
 
@@ -37,6 +37,8 @@ def tasks(tier):
     for udp in (0, 1):
         ts.append(Task('verifHarness_C14_server', [udp]))
     ts.append(Task('verifHarness_C14_terminated', []))
+    for kind, ek in ((0, 0), (0, 1), (1, 0), (1, 1), (2, 0)):
+        ts.append(Task('verifHarness_C14_broadcast', [kind, ek]))
     for kind in (0, 1, 2):
         for second in (0, 1):
             ts.append(Task('verifHarness_C14_backoff_terminated', [kind, second]))
@@ -49,7 +51,7 @@ def tasks(tier):
 
 
 def required_reach(tier):
-    return ['C14/T1', 'C14/T2s', 'C14/T2c', 'C14/T3', 'C14/T4', 'C14/L2', 'C14/T2t', 'C14/T2b', 'C14/T1p']
+    return ['C14/T1', 'C14/T2s', 'C14/T2c', 'C14/T3', 'C14/T4', 'C14/L2', 'C14/T2t', 'C14/T2b', 'C14/T1p', 'C14/T5']
 
 
 def bounds(tier):
@@ -59,6 +61,7 @@ def bounds(tier):
             'T2_reconnect': 'serial, TCP client and UDP client provide(): 0..3 consecutive failed attempts then a success, first and later '
                             'provide() calls; timers are treated as fired and their durations logged; closed endpoint',
             'T2_backoff_close': 'serial / TCP client / UDP client provide() with every attempt failing and reconnect timers that have not elapsed: closing the endpoint ends provide() with errTerminated (one schedule)',
+            'T5_broadcast': 'UDP broadcast connection wrapper: one Read / Write, write timeout and clock symbolic, byte count 0..8, error or not, failing SetWriteDeadline',
             'T4_server': 'TCP and UDP server provide(): two accepted peers then an accept error; idle, write and read timeouts symbolic', 'T2_long_outage': 'TCP client with 5, 6 and 8 failed attempts (virtual time: the reconnect waits add up past the 10 s connect timeout)',
             'T3_provider': 'scripted endpoint handing out 3 connections then terminating; one-at-a-time or not; channels reported done or not',
             'NOT DECIDED': 'that the close event carries the reader error and that an expired deadline ends the channel (both through '
